@@ -758,7 +758,11 @@ def _classify(kind, sfx, op, res, before, exp, got, oracle_before, force_parts=N
             if t == "nc" and k in ("w", "drop") and uid and all(x != own for x in lost):
                 # a record of ANOTHER identifier disappeared
                 key = (uid.replace(f".{sfx}", "") + ".json") if kind == "dir" else uid
-                if all(x.endswith(key) for x in lost):
+                if kind == "dir" and all(x == NCP + key for x in lost):
+                    # the record whose file name IS the raw drop key '<id minus .suffix>.json' (it belongs to another
+                    # identifier because _write stores under Path(id).stem): not a suffix match
+                    parts.append("nc-other-removed-exact-key")
+                elif all(x.endswith(key) for x in lost):
                     parts.append("nc-other-removed-suffix-match")
                 else:
                     parts.append("nc-other-removed")
